@@ -31,7 +31,7 @@ package creator
 
 // create: exactly one batch [PutIfNotExist(index, revision bytes), Put(object, value)]
 //@ func (*naiveCreator).create(ctx, revisionKey, objectKey, value, revision, lease) (err)
-//@   props C01
+//@   props C01 C17
 //@   requires wf_creator(l) && !batch_open
 //@   modifies ghost.bw_n ghost.bw_kind ghost.bw_key ghost.bw_val ghost.bw_old ghost.bw_ttl ghost.commits ghost.last_batch ghost.last_err ghost.batch_open ghost.floor ghost.floor_set
 //@   ensures [one-batch] commits == old(commits)+1 && last_err == err && bw_n[last_batch] == 2 && !batch_open
@@ -42,7 +42,7 @@ package creator
 
 // update: exactly one batch [CAS(index, new, old), Put(object, value)]
 //@ func (*naiveCreator).update(ctx, revisionKey, objectKey, value, newRevision, oldRevision, lease) (err)
-//@   props C01
+//@   props C01 C17
 //@   requires wf_creator(l) && !batch_open
 //@   modifies ghost.bw_n ghost.bw_kind ghost.bw_key ghost.bw_val ghost.bw_old ghost.bw_ttl ghost.commits ghost.last_batch ghost.last_err ghost.batch_open ghost.floor ghost.floor_set
 //@   ensures [one-batch] commits == old(commits)+1 && last_err == err && bw_n[last_batch] == 2 && !batch_open
@@ -53,7 +53,7 @@ package creator
 // CreateWithTTL: a first put-if-absent batch; on a failed condition a second batch only if the
 // index holds a deletion older than this revision (CAS from exactly those bytes) or has vanished
 //@ func (*naiveCreator).CreateWithTTL(ctx, key, val, revision, ttl) (err)
-//@   props C01 C02 C06 C09
+//@   props C01 C02 C06 C09 C17
 //@   requires wf_creator(l) && !batch_open
 //@   modifies ghost.bw_n ghost.bw_kind ghost.bw_key ghost.bw_val ghost.bw_old ghost.bw_ttl ghost.commits ghost.last_batch ghost.last_err ghost.batch_open ghost.floor ghost.floor_set
 //@   ensures [one-or-two-batches] commits == old(commits)+1 || commits == old(commits)+2
@@ -62,6 +62,8 @@ package creator
 //@   ensures [unknown-outcome-is-returned] commits != old(commits) && err_is(last_err, storage.ErrUncertainResult) ==> err == last_err && !err_is(last_err, storage.ErrCASFailed) && last_err != nil
 //@   ensures [last-batch-writes-this-revision] bw_n[last_batch] == 2 && is_enc(bw_key[last_batch][0], key, uint64(0)) && len(bw_val[last_batch][0]) == 8 && be64_of(bw_val[last_batch][0]) == revision && is_enc(bw_key[last_batch][1], key, revision) && bw_val[last_batch][1] == val
 //@   ensures [success-stores-the-version] err == nil ==> commits != old(commits) && last_err == nil && is_enc(bw_key[last_batch][1], key, revision) && bw_val[last_batch][1] == val
+// C17: the index record and the version are written with the same ttl, so they expire together
+//@   ensures [index-and-version-get-the-same-ttl] bw_ttl[last_batch][0] == ttl && bw_ttl[last_batch][1] == ttl
 //@   ensures [overwrite-only-an-older-deletion] commits == old(commits)+2 && bw_kind[last_batch][0] == 2 ==> len(bw_old[last_batch][0]) == 9 && be64_of(bw_old[last_batch][0]) < revision
 
 //@ func (*naiveCreator).Create(ctx, key, value, revision) (err)
